@@ -51,6 +51,7 @@ pub mod c10;
 pub mod c11;
 pub mod c12;
 pub mod c14;
+pub mod c16;
 pub mod c20;
 pub mod subs;
 pub mod work;
@@ -83,7 +84,7 @@ pub struct Node {
     pub tripwire: Tripwire,
     // kept alive so senders inside the agent do not error
     _keep: (
-        CorroReceiver<klukai_types::broadcast::FocaInput>,
+        Option<CorroReceiver<klukai_types::broadcast::FocaInput>>,
         tokio::sync::mpsc::Receiver<(SocketAddr, Duration)>,
         Vec<tokio::net::TcpListener>,
     ),
@@ -97,6 +98,8 @@ pub struct NodeOpts {
     pub cluster_id: Option<u16>,
     /// run the real `handle_changes` loop on the node's changes channel
     pub run_handle_changes: bool,
+    /// run the real broadcast/SWIM `runtime_loop` on the node's broadcast channel
+    pub run_broadcast: bool,
 }
 
 impl Default for NodeOpts {
@@ -107,6 +110,7 @@ impl Default for NodeOpts {
             perf: None,
             cluster_id: None,
             run_handle_changes: false,
+            run_broadcast: false,
         }
     }
 }
@@ -169,6 +173,19 @@ pub async fn new_node_in(idx: usize, dir: tempfile::TempDir, opts: NodeOpts) -> 
         bounded(1, "verif_dummy_changes").1
     } else {
         rx_changes
+    };
+
+    let (rx_bcast, rx_foca) = if opts.run_broadcast {
+        let (to_send_tx, mut to_send_rx) = bounded(1024, "verif_to_send");
+        let (notifications_tx, mut notifications_rx) = bounded(1024, "verif_notifications");
+        klukai_agent::broadcast::runtime_loop(agent.actor(None), agent.clone(), transport.clone(), rx_foca, rx_bcast, to_send_tx, notifications_tx, tripwire.clone());
+        // SWIM packets and notifications are not delivered anywhere: the member table is
+        // whatever the harness puts into it
+        tokio::spawn(async move { while to_send_rx.recv().await.is_some() {} });
+        tokio::spawn(async move { while notifications_rx.recv().await.is_some() {} });
+        (bounded(1, "verif_dummy_bcast").1, None)
+    } else {
+        (rx_bcast, Some(rx_foca))
     };
 
     let (clear_tx, clear_rx) = bounded(1024, "verif_clear");
